@@ -27,17 +27,29 @@ var SpecialClass = map[string]bool{"self": true, "parent": true, "static": true}
 var SpecialType = map[string]bool{"int": true, "float": true, "bool": true, "string": true, "void": true, "iterable": true, "object": true, "self": true, "parent": true, "array": true, "callable": true}
 var SpecialConst = map[string]bool{"true": true, "false": true, "null": true}
 
+// lower folds ASCII letters only: PHP compares class, function and namespace names byte-wise after an ASCII-only,
+// locale-independent lower-casing (zend_str_tolower), so `BÄR` is not `Bär` and two different invalid UTF-8 bytes never meet.
+func lower(s string) string {
+	b := []byte(s)
+	for i, c := range b {
+		if c >= 'A' && c <= 'Z' {
+			b[i] = c + 32
+		}
+	}
+	return string(b)
+}
+
 // Resolve: kind ∈ class, type, function, const. special=true: the name is left unqualified.
 func (s *Scope) Resolve(name, kind string) (fqn string, special bool) {
 	if strings.HasPrefix(name, `\`) {
 		return name[1:], false // fully qualified: as written
 	}
-	if strings.HasPrefix(strings.ToLower(name), `namespace\`) {
+	if strings.HasPrefix(lower(name), `namespace\`) {
 		return s.Qualify(name[len(`namespace\`):]), false // relative: current namespace
 	}
 	parts := strings.Split(name, `\`)
 	if len(parts) == 1 {
-		l := strings.ToLower(name)
+		l := lower(name)
 		switch kind {
 		case "class":
 			if SpecialClass[l] {
@@ -69,7 +81,7 @@ func (s *Scope) Resolve(name, kind string) (fqn string, special bool) {
 		return s.Qualify(name), false
 	}
 	// qualified: the first segment goes through the class/namespace import table, whatever the kind
-	if f, ok := s.Class[strings.ToLower(parts[0])]; ok {
+	if f, ok := s.Class[lower(parts[0])]; ok {
 		return f + `\` + strings.Join(parts[1:], `\`), false
 	}
 	return s.Qualify(name), false
@@ -129,8 +141,11 @@ var Imports = []Import{
 	{`use function X\a, X\b as foo;`, func(s *Scope) { s.Fn["a"] = `X\a`; s.Fn["foo"] = `X\b` }, false},
 }
 
-// ImportVariants: keywords are case-insensitive; a leading backslash in a function / constant import
+// ImportVariants: names with bytes >= 0x80 (valid and invalid UTF-8); keywords are case-insensitive; a leading backslash in a function / constant import
 var ImportVariants = []Import{
+	{"use X\\B\u00e4r;", func(s *Scope) { s.Class["b\u00e4r"] = "X\\B\u00e4r" }, false},
+	{"use X\\Y as B\xff;", func(s *Scope) { s.Class["b\xff"] = `X\Y` }, false},
+	{"use function X\\B\u00e4r;", func(s *Scope) { s.Fn["b\u00e4r"] = "X\\B\u00e4r" }, false},
 	{`use FUNCTION X\foo;`, func(s *Scope) { s.Fn["foo"] = `X\foo` }, false},
 	{`USE Function X\y AS Foo;`, func(s *Scope) { s.Fn["foo"] = `X\y` }, false},
 	{`use CONST X\Foo;`, func(s *Scope) { s.Const["Foo"] = `X\Foo` }, false},
@@ -297,7 +312,9 @@ var Positions = []Position{
 }
 
 var Names = []string{"Foo", "foo", "FOO", "Bar", `Foo\Bar`, `foo\Bar`, `Bar\Foo`, `W\Q`, `w\Q`, "A", "a", `\Foo`, `\Foo\Bar`, `namespace\Foo`, `namespace\Foo\Bar`, `NAMESPACE\Foo`,
-	"self", "parent", "static", "Self", "PARENT", "int", "float", "bool", "string", "void", "iterable", "object", "INT", "String", "true", "false", "null", "NULL", "True"}
+	"self", "parent", "static", "Self", "PARENT", "int", "float", "bool", "string", "void", "iterable", "object", "INT", "String", "true", "false", "null", "NULL", "True",
+	// bytes >= 0x80 are name characters and have no case
+	"B\u00e4r", "B\u00c4R", "b\u00e4r", "B\xfe", "B\u00e4r\\Q"}
 
 type NSForm struct {
 	Name string
